@@ -270,13 +270,19 @@ class Reporter:
 
     def match(self, witness_keys, clause):
         """witness_keys: strings identifying the failing case (e.g. a matcher tag or case name)."""
+        hits = []
         for f in self.entries:
             cl = list(f.get("clauses") or []) + ([f["clause"]] if f.get("clause") else [])
             if cl and "*" not in cl and clause not in cl:
                 continue
             if any(re.fullmatch(w, k) for w in f.get("witness", []) for k in witness_keys):
+                hits.append(f)
+        # several listed findings can cover one failing case (a program with two of the shapes): the one that names the case
+        # as its witness program is the one reported
+        for f in hits:
+            if any(k in f.get("cases", []) for k in witness_keys):
                 return f
-        return None
+        return hits[0] if hits else None
 
     def violation(self, witness_keys, clause, replay_obj, summary):
         f = self.match(witness_keys, clause)
